@@ -70,6 +70,16 @@ def _exists(modname: str) -> bool:
     return os.path.isfile(p + ".py")
 
 
+def _source(modname: str) -> str:
+    key = "src:" + modname
+    if key not in _CACHE:
+        try:
+            _CACHE[key] = open(os.path.join(core.REPO, *modname.split(".")) + ".py", encoding="utf-8").read()
+        except OSError:
+            _CACHE[key] = ""
+    return _CACHE[key]
+
+
 def static_deps(modname: str) -> list[str]:
     """Direct catalogue dependencies read from the source (pure function of the tree)."""
     key = "deps:" + modname
@@ -152,13 +162,16 @@ def generate(seed: int, run: int, tier: str) -> dict:
     rng = core.rng_for(seed, PROP, run, "gen")
     mods = modules()
     env = rng.choice(ENVS)
-    style = rng.choice(["perm", "perm", "jumps", "mixed", "mixed", "deps_then_jump", "heavy_cache", "create"])
+    style = rng.choice(["perm", "perm", "jumps", "mixed", "mixed", "deps_then_jump", "heavy_cache", "create", "nearby_calls", "args_early"])
     n_targets = rng.choice([1, 1, 2, 3])
     # bias: half of the targets are modules with in-module derivations (they have deps)
     with_deps = [m for m in mods if static_deps(m)]
     targets = [rng.choice(with_deps if rng.random() < 0.6 and with_deps else mods) for _ in range(n_targets)]
     ops: list = []
-    n_pre = {"perm": rng.choice([2, 5, 10, 20]), "jumps": 0, "mixed": rng.choice([1, 3, 8]), "deps_then_jump": 0, "heavy_cache": rng.choice([2, 6]), "create": rng.choice([0, 2])}[style]
+    n_pre = {"perm": rng.choice([2, 5, 10, 20]), "jumps": 0, "mixed": rng.choice([1, 3, 8]), "deps_then_jump": 0, "heavy_cache": rng.choice([2, 6]), "create": rng.choice([0, 2]), "nearby_calls": rng.choice([0, 1]), "args_early": 0}[style]
+    with_funcs = [m for m in mods if "def calculate_" in _source(m)]
+    if style in ("nearby_calls", "args_early") and with_funcs:
+        targets = [rng.choice(with_funcs) for _ in range(n_targets)]
     pre = []
     for _ in range(n_pre):
         r = rng.random()
@@ -195,12 +208,27 @@ def generate(seed: int, run: int, tier: str) -> dict:
     if style == "create":
         for _ in range(rng.choice([1, 2, 4])):
             ops.append({"op": "create", "kind": rng.choice(["Symbol", "Function", "Quantity", "CoordinateSystem", "IndexedSymbol", "VectorSymbol"]), "k": rng.choice([1, 7, 9, 50, 99, 200])})
+    if style == "nearby_calls":
+        # the same functions used shortly before with equal or nearly equal arguments (values that
+        # print alike), possibly from a sibling module of the same package
+        for t in targets:
+            ops.append({"op": "import", "m": t})
+            for _ in range(rng.choice([1, 2])):
+                ops.append({"op": "call", "m": t, "jitter": rng.choice([1.0, 1.0004, 0.9997, 1.00001, 1.3])})
+    if style == "args_early":
+        # argument quantities are created first, a lot happens, and only then are they used
+        for t in targets:
+            ops.append({"op": "prepare_args", "m": t})
+        big = rng.choice([60, 700, 9000, 9000])
+        ops.append({"op": "create", "kind": "Quantity", "k": big})
+        if rng.random() < 0.5:
+            ops.append({"op": "jump", "prefix": "QTY", "to": _boundary(rng)})
     if rng.random() < 0.3:
         ops.append({"op": "clear_cache"})
     order = list(targets)
     rng.shuffle(order)
     for t in order:
-        ops.append({"op": "observe", "m": t})
+        ops.append({"op": "observe", "m": t, "use_prepared": True} if style == "args_early" else {"op": "observe", "m": t})
     return _job(seed, run, env, ops)
 
 
@@ -264,6 +292,7 @@ def child_run(job: dict) -> dict:
     first_import_counter = {}
     perturbed_before = set()
     steps = 0
+    prepared: dict = {}
     before_mods = set(sys.modules)
     for step, op in enumerate(job["ops"]):
         kind = op["op"]
@@ -292,14 +321,21 @@ def child_run(job: dict) -> dict:
         elif kind == "call":
             mod = sys.modules.get(op["m"])
             if mod is not None:
-                res = observe.call_functions(mod)
+                res = observe.call_functions(mod, jitter=float(op.get("jitter", 1.0)))
                 faults["call_before"] += 1
+                if op.get("jitter", 1.0) != 1.0:
+                    faults["call_nearby_args"] = faults.get("call_nearby_args", 0) + 1
                 outcome = core.digest(res)[:12]
+        elif kind == "prepare_args":
+            mod, _err = observe.try_import(op["m"])
+            if mod is not None:
+                prepared[op["m"]] = observe.prepare_arguments(mod)
+                faults["args_created_early"] = faults.get("args_created_early", 0) + 1
         elif kind == "observe":
             m = op["m"]
             counters = dict(ids)
             dep_first = m in sys.modules
-            o = observe.observe(m, with_calls=op.get("calls", True))
+            o = observe.observe(m, with_calls=op.get("calls", True), prepared=prepared.get(m) if op.get("use_prepared") else None)
             _note_first_imports(before_mods, first_import_counter, counters, faults, perturbed_before)
             o["dep_first"] = dep_first
             o["counters_before"] = {p: counters.get(p, 0) for p in PREFIXES}
